@@ -23,6 +23,10 @@ def _is_sym(x):
     return hasattr(x, "__sym__")
 
 
+class ShimUnsupported(BaseException):
+    """a numpy feature that the stand-in does not model was applied to symbolic operands: the path is inconclusive"""
+
+
 class f64(float):
     """numpy.float64 scalar semantics for concrete values: division by zero yields nan/inf instead of raising"""
 
@@ -194,14 +198,29 @@ class ndarray:
         assert len(self._f) == 1
         return self._f[0]
 
+    fcontig = False   # result of .T of a 2-D array: 'A'/'K' orders then read column-major, like numpy
+
     def flatten(self, order="C"):
+        if order in ("A", "K"):
+            order = "F" if self.fcontig else "C"
         if order == "C" or self.ndim <= 1:
             return ndarray(self._f, (len(self._f),), sw=self.sw)
         assert self.ndim == 2
         R, C = self.shape
         return ndarray([self._f[r * C + c] for c in range(C) for r in range(R)], (R * C,), sw=self.sw)
 
-    ravel = flatten
+    def ravel(self, order="C"):
+        return self.flatten(order)
+
+    def __matmul__(self, o):
+        if builtins.any(_is_sym(e) for e in self._f) or (isinstance(o, ndarray) and builtins.any(_is_sym(e) for e in o._f)):
+            raise ShimUnsupported("matrix product on symbolic operands")
+        return _from_real(_np.asarray(self) @ _np.asarray(o))
+
+    def __rmatmul__(self, o):
+        if builtins.any(_is_sym(e) for e in self._f):
+            raise ShimUnsupported("matrix product on symbolic operands")
+        return _from_real(_np.asarray(o) @ _np.asarray(self))
 
     def reshape(self, *shape, order="C"):
         if len(shape) == 1 and isinstance(shape[0], (tuple, list)):
@@ -228,7 +247,9 @@ class ndarray:
         if self.ndim < 2:
             return self.copy()
         R, C = self.shape
-        return ndarray([self._f[r * C + c] for c in range(C) for r in range(R)], (C, R), sw=self.sw)
+        t = ndarray([self._f[r * C + c] for c in range(C) for r in range(R)], (C, R), sw=self.sw)
+        t.fcontig = not self.fcontig
+        return t
 
     # ---- indexing
     def __getitem__(self, idx):
@@ -770,12 +791,12 @@ def allclose(a, b, rtol=1e-05, atol=1e-08):
 def _to_real(x):
     if isinstance(x, ndarray):
         if builtins.any(_is_sym(e) for e in x._f):
-            raise NotImplementedError("numpy fallback on symbolic operands")
+            raise ShimUnsupported("numpy function outside the stand-in applied to symbolic operands")
         return _np.array(x.tolist())
     if isinstance(x, (list, tuple)):
         return type(x)(_to_real(e) for e in x)
     if _is_sym(x):
-        raise NotImplementedError("numpy fallback on symbolic operands")
+        raise ShimUnsupported("numpy function outside the stand-in applied to symbolic operands")
     return x
 
 
